@@ -5,7 +5,7 @@ use syn::{parse_quote, Attribute, Expr, Ident, ItemEnum, Path, Result, Type, Whe
 use super::{parse_assign_expr, parse_assign_from_str, parse_bound, Attr, ContainerAttr, Serde};
 use crate::{
     attr::{parse_assign_inflection, parse_assign_str, parse_concrete, Inflection},
-    utils::{parse_attrs, parse_docs},
+    utils::{escape_string, parse_attrs, parse_docs},
 };
 
 #[derive(Default)]
@@ -57,6 +57,10 @@ impl EnumAttr {
 
         let docs = parse_docs(attrs)?;
         result.docs = docs;
+
+        // `tag` and `content` only ever appear between double quotes
+        result.tag = result.tag.map(|tag| escape_string(&tag));
+        result.content = result.content.map(|content| escape_string(&content));
 
         Ok(result)
     }
